@@ -26,8 +26,9 @@ RULES = {
     "R4": "synergy = prod(single effects) - observation; strict raises; lenient skips rows with a missing effect",
     "R5": "calculate_mse = mean((predict_viability_avg - observations)^2)",
     "R6": "similarity: same operand twice in einsum 'ik,jk->ij' after row normalisation; synthetic screen from combinations of mapping entries with the screen's mappings",
+    "R7": "evaluate_model labels every prediction column with the index of the chain file it came from, and predicts on the concatenation of the same list",
 }
-MIN = {"R1": 4, "R2": 4, "R3": 5, "R4": 4, "R5": 1, "R6": 3}
+MIN = {"R1": 4, "R2": 4, "R3": 5, "R4": 4, "R5": 1, "R6": 3, "R7": 2}
 TRUSTED = ["numpy reductions: mean(axis=1) over a (experiment, theta) matrix reduces thetas", "np.var is the population variance"]
 TECHNIQUE = "polynomial/reduction normal forms compared against forms written from the statement; writer/reader agreement"
 LEVEL_TEXT = ("Each reported number is an expression over the inputs; its canonical form is compared with the canonical form "
@@ -483,7 +484,14 @@ def r6(ctx):
               "the synthetic screen is not built from combinations of the screen's mapping entries with the screen's mappings passed through")
 
 
-RULE_FUNCS = [r1, r2, r3, r4, r5, r6]
+def r7(ctx):
+    """inter-chain variance is the variance of per-*chain* MSEs only if the chain ids handed to ModelEvaluation label the columns by the
+    file (chain) they came from (C10.R2's clause run here)"""
+    from . import C10
+    ctx.borrow(C10.chain_labels, "R7")
+
+
+RULE_FUNCS = [r1, r2, r3, r4, r5, r6, r7]
 
 
 def run(ctx):
